@@ -30,8 +30,9 @@ type Store struct {
 	badgerDir string
 	bundleDir string
 
-	// pushMutex serializes Push calls, which read, modify and write back a BundleItem.
-	pushMutex sync.Mutex
+	// writeMutex serializes Push, Update and Delete. Push reads, modifies and writes back a BundleItem. Furthermore, all
+	// BundleItems share their index entries, so that concurrent transactions for different bundles conflict and fail.
+	writeMutex sync.Mutex
 }
 
 // NewStore creates a new Store or opens an existing Store from the given path.
@@ -74,8 +75,8 @@ func (s *Store) Close() error {
 
 // Push a new/received Bundle to the Store.
 func (s *Store) Push(b bpv7.Bundle) error {
-	s.pushMutex.Lock()
-	defer s.pushMutex.Unlock()
+	s.writeMutex.Lock()
+	defer s.writeMutex.Unlock()
 
 	bi := newBundleItem(b, s.bundleDir)
 
@@ -144,11 +145,17 @@ func (s *Store) Update(bi BundleItem) error {
 	}).Debug("Store updates BundleItem")
 	verifPoint("update:entry", bi.Id)
 
+	s.writeMutex.Lock()
+	defer s.writeMutex.Unlock()
+
 	return s.bh.Update(bi.Id, bi)
 }
 
 // Delete a BundleItem, represented by the "scrubbed" BundleID.
 func (s *Store) Delete(bid bpv7.BundleID) error {
+	s.writeMutex.Lock()
+	defer s.writeMutex.Unlock()
+
 	if bi, err := s.QueryId(bid); err == nil {
 		log.WithFields(log.Fields{
 			"bundle": bid,
